@@ -121,3 +121,76 @@ Definition collapse_case (n : nat) (tq : list nat) (shot : nat) (psi : list Zi) 
    opt_eqb zi_list_eqb (collapsed m) (Some (project n (sort_nat tq) (recorded m) psi))).
 
 Definition mat_eqb (a b : list (list Zi)) : bool := list_eqb zi_list_eqb a b.
+
+(* ---- Circuit.add bookkeeping and per-shot execution of circuits whose measurements were
+   turned into collapsing ones by later gates *)
+From QV Require Import C03.ModelCircuit.
+
+Inductive xop := XM (qs : list nat) (name : option nat) (c : bool) | XG (g : gapp Zi).
+Definition xop_cop (x : xop) : cop :=
+  match x with
+  | XM qs nm c => AddM qs nm c
+  | XG (cs, ts, _) => AddG (cs ++ ts)          (* gate.qubits = control_qubits + target_qubits *)
+  end.
+Definition build_circ (xs : list xop) : option circ := add_ops circ0 (map xop_cop xs).
+
+Definition mrec_eqb (a b : mrec) : bool :=
+  list_eqb Nat.eqb (m_qs a) (m_qs b) && rname_eqb (m_name a) (m_name b) && Bool.eqb (m_coll a) (m_coll b).
+Definition circ_eqb (a b : circ) : bool :=
+  list_eqb mrec_eqb (k_ms a) (k_ms b) && list_eqb Nat.eqb (k_meas a) (k_meas b) && Bool.eqb (k_hc a) (k_hc b).
+
+(* one shot of execute_circuit_repeated: gates are applied, measurements whose collapse flag is
+   set collapse the state with the drawn outcome and record it; the remaining measurements
+   (circuit.measurements) are sampled once from the final state.
+   Result: recorded bits per collapsing measurement (by index), rows per remaining register,
+   and whether every drawn outcome had non-zero probability *)
+Fixpoint exec_items (n : nat) (fin : circ) (xs : list xop) (midx : nat) (psi : list Zi) (draws : list nat)
+  : option (list (nat * bits) * list Zi * list nat * bool) :=
+  match xs with
+  | [] => Some ([], psi, draws, true)
+  | XG g :: xs' => exec_items n fin xs' midx (mat_vec (gmat Ziops n g) psi) draws
+  | XM _ _ _ :: xs' =>
+      let m := nth midx (k_ms fin) mrec0 in
+      if m_coll m then
+        match draws with
+        | d :: ds =>
+            let a := m_apply n (m_qs m) d psi in
+            match collapsed a with
+            | Some psi' =>
+                match exec_items n fin xs' (S midx) psi' ds with
+                | Some (rec, pf, dr, ok) => Some ((midx, recorded a) :: rec, pf, dr, ok && negb (Z.eqb (cnorm2 a) 0%Z))
+                | None => None
+                end
+            | None => None
+            end
+        | [] => None
+        end
+      else exec_items n fin xs' (S midx) psi draws
+  end.
+
+Definition exec_shot (n : nat) (fin : circ) (xs : list xop) (psi : list Zi) (draws : list nat)
+  : option (list (nat * bits) * list bits * bool) :=
+  match exec_items n fin xs 0 psi draws with
+  | Some (rec, pf, d :: _, ok) =>
+      let regs := map (fun i => m_qs (nth i (k_ms fin) mrec0)) (k_meas fin) in
+      let Q := global_qubits regs in
+      let row := to_bin (length Q) d in
+      Some (rec, map (fun reg => take_cols (reg_cols Q reg) row) regs,
+            ok && in_support (length Q) (calc_probs_state n Q pf) d)
+  | _ => None
+  end.
+
+Definition rec_eqb (a b : list (nat * bits)) : bool :=
+  list_eqb (fun p q => (fst p =? fst q) && bits_eqb (snd p) (snd q)) a b.
+
+(* [model ran; recorded outcomes agree; final register rows agree; sampler contract] *)
+Definition shot_check (n : nat) (xs : list xop) (psi : list Zi) (draws : list nat)
+           (impl_rec : list (nat * bits)) (impl_final : list bits) : list bool :=
+  match build_circ xs with
+  | Some fin =>
+      match exec_shot n fin xs psi draws with
+      | Some (rec, fr, ok) => [true; rec_eqb rec impl_rec; list_eqb bits_eqb fr impl_final; ok]
+      | None => [false; false; false; false]
+      end
+  | None => [false; false; false; false]
+  end.
